@@ -23,6 +23,7 @@ out = os.path.join(verif, 'sensitivity', 'RESULTS.json')
 only = None
 kinds = {'mutant', 'fix', 'seeded'}
 jobs = 1
+resume = '--resume' in sys.argv
 for a in sys.argv[1:]:
     if a.startswith('--only='):
         only = set(a.split('=')[1].split(','))
@@ -45,6 +46,9 @@ for p in sorted(glob.glob(os.path.join(verif, 'mutants', 'fixes', 'D*.patch'))):
 for p in sorted(glob.glob(os.path.join(verif, 'seeded', 'C*', 'patch.diff'))):
     items.append(('seeded', os.path.basename(os.path.dirname(p)).split('-')[0], p, False))
 items = [i for i in items if i[0] in kinds and (only is None or i[1] in only)]
+if resume and os.path.exists(out):
+    done = json.load(open(out))
+    items = [i for i in items if done.get(os.path.relpath(i[2], verif), {}).get('verdict') != 'KILLED']
 
 
 def git(repo, *args):
